@@ -342,6 +342,14 @@ class _ResourceOperations:
     def write_file(self, resource, contents: Union[str, FileContent]):
         data: FileContent
         if not isinstance(contents, bytes):
+            if resource.newlines is None and resource.exists():
+                # The file has not been read through this object yet (for
+                # example a change loaded from a saved history is undone):
+                # find out which line endings it uses before rewriting it.
+                try:
+                    resource.read()
+                except exceptions.ModuleDecodeError:
+                    pass
             data = rope.base.fscommands.unicode_to_file_data(
                 contents,
                 newlines=resource.newlines,
